@@ -15,13 +15,19 @@ tag (int, bool, float) and aliases are outside the modelled domain: the harness 
 -/
 namespace Pint.Load
 
-/-- a field that should hold a string -/
-inductive SV | absent | null | empty | val | coll
+/-- a field that should hold a string; `other` = a scalar with another tag (int, bool, float): pint refuses the type,
+yaml.v3 hands its text to Prometheus -/
+inductive SV | absent | null | empty | val | coll | other
 deriving DecidableEq, Repr, Inhabited
 
 /-- a field that should hold a duration (string-tagged scalars only) -/
-inductive DV | absent | null | valid | zero | invalid | coll
+inductive DV | absent | null | valid | zero | invalid | coll | otherValid | otherZero | otherInvalid
 deriving DecidableEq, Repr, Inhabited
+
+/-- what Prometheus sees: the text of any scalar -/
+def pv (s : SV) : SV := if s == .other then .val else s
+def pd (d : DV) : DV :=
+  match d with | .otherValid => .valid | .otherZero => .zero | .otherInvalid => .invalid | x => x
 
 /-- `limit` -/
 inductive LV | absent | null | int | other
@@ -40,6 +46,7 @@ structure MapV where
   badValue : Bool       -- some value is not a valid label value (invalid UTF-8)
   badTemplate : Bool    -- some value does not parse as a template
   nonEmpty : Bool       -- the mapping has entries
+  otherValue : Bool     -- some value is a scalar that is not a string (and not null)
 deriving DecidableEq, Repr, Inhabited
 
 structure RuleD where
@@ -101,10 +108,13 @@ def mapPresentMap (m : MapV) : Bool := m.kind == .map
 def pintRule (r : RuleD) : Bool :=
   r.isNull || !r.isMap || r.duplicateKey || r.unknownKey ||
   r.record == .coll || r.alert == .coll || r.expr == .coll || r.for_ == .coll || r.keepFiring == .coll ||
+  r.record == .other || r.alert == .other || r.expr == .other ||
+  r.for_ == .otherValid || r.for_ == .otherZero || r.for_ == .otherInvalid ||
+  r.keepFiring == .otherValid || r.keepFiring == .otherZero || r.keepFiring == .otherInvalid ||
   r.record == .null || r.alert == .null || r.expr == .null ||
   r.labels.kind == .notMap || r.annotations.kind == .notMap ||
-  (mapPresentMap r.labels && (r.labels.collValue || r.labels.dupKey)) ||
-  (mapPresentMap r.annotations && (r.annotations.collValue || r.annotations.dupKey)) ||
+  (mapPresentMap r.labels && (r.labels.collValue || r.labels.dupKey || r.labels.otherValue)) ||
+  (mapPresentMap r.annotations && (r.annotations.collValue || r.annotations.dupKey || r.annotations.otherValue)) ||
   (r.record != .absent && r.alert != .absent) ||
   (r.record == .absent && r.alert == .absent) ||
   r.record == .empty || r.alert == .empty ||
@@ -125,7 +135,7 @@ def pintGroupOwn (g : GroupD) : Bool :=
   (g.queryOffset != .absent && g.queryOffset != .valid && g.queryOffset != .zero) ||
   (g.limit != .absent && g.limit != .int) ||
   (g.labels.kind != .absent && g.labels.kind != .map) ||
-  (mapPresentMap g.labels && (g.labels.collValue || g.labels.dupKey || g.labels.badName || g.labels.metricName || g.labels.badValue)) ||
+  (mapPresentMap g.labels && (g.labels.collValue || g.labels.dupKey || g.labels.otherValue || g.labels.badName || g.labels.metricName || g.labels.badValue)) ||
   (match g.rules with | .notSeq => true | _ => false)
 
 def pintGroup (g : GroupD) : Bool :=
@@ -136,7 +146,7 @@ def repeatedName : List String → Bool
   | [] => false
   | n :: ns => ns.contains n || repeatedName ns
 
-def namesOf (gs : List GroupD) : List String := (gs.filter fun g => !g.isNull && g.name == .val).map (·.nameText)
+def namesOf (gs : List GroupD) : List String := (gs.filter fun g => !g.isNull && pv g.name == .val).map (·.nameText)
 
 def pintBlocks (d : Doc) : Bool :=
   if d.empty then false
@@ -154,22 +164,22 @@ def promMapBad (m : MapV) : Bool :=
 def promRule (r : RuleD) : Bool :=
   !r.isNull && (!r.isMap || r.duplicateKey || r.unknownKey ||
   r.record == .coll || r.alert == .coll || r.expr == .coll || r.for_ == .coll || r.keepFiring == .coll ||
-  r.for_ == .invalid || r.keepFiring == .invalid ||
+  pd r.for_ == .invalid || pd r.keepFiring == .invalid ||
   promMapBad r.labels || promMapBad r.annotations ||
   -- Rule.Validate (null and absent decode to the zero value)
-  (r.record == .val && r.alert == .val) ||
-  (r.record != .val && r.alert != .val) ||
-  (r.expr != .val) || (r.expr == .val && !r.exprParses) ||
-  (r.record == .val && ((r.annotations.kind == .map && r.annotations.nonEmpty) || r.for_ == .valid || r.keepFiring == .valid ||
+  (pv r.record == .val && pv r.alert == .val) ||
+  (pv r.record != .val && pv r.alert != .val) ||
+  (pv r.expr != .val) || (pv r.expr == .val && !r.exprParses) ||
+  (pv r.record == .val && ((r.annotations.kind == .map && r.annotations.nonEmpty) || pd r.for_ == .valid || pd r.keepFiring == .valid ||
                         !r.recordValid || r.recordBraces)) ||
   (r.labels.kind == .map && (r.labels.badName || r.labels.metricName || r.labels.badValue)) ||
   (r.annotations.kind == .map && r.annotations.badName) ||
-  (r.alert == .val && ((r.labels.kind == .map && r.labels.badTemplate) || (r.annotations.kind == .map && r.annotations.badTemplate))))
+  (pv r.alert == .val && ((r.labels.kind == .map && r.labels.badTemplate) || (r.annotations.kind == .map && r.annotations.badTemplate))))
 
 def promGroupOwn (g : GroupD) : Bool :=
   !g.isMap || g.unknownKey || g.duplicateKey ||
-  g.name == .coll || g.name != .val ||
-  g.interval == .invalid || g.interval == .coll || g.queryOffset == .invalid || g.queryOffset == .coll ||
+  g.name == .coll || pv g.name != .val ||
+  pd g.interval == .invalid || g.interval == .coll || pd g.queryOffset == .invalid || g.queryOffset == .coll ||
   g.limit == .other ||
   promMapBad g.labels ||
   (g.labels.kind == .map && (g.labels.badName || g.labels.metricName || g.labels.badValue)) ||
